@@ -159,17 +159,24 @@ Definition cube_eq_dec : forall a b : cube, {a = b} + {a <> b} :=
   list_eq_dec (list_eq_dec (list_eq_dec Z.eq_dec)).
 Definition cube_eqb (a b : cube) : bool := if cube_eq_dec a b then true else false.
 
-(** delay functions given by tables (keys compared as rationals); an unknown key gives a poison value *)
+(** delay functions given by tables.  Keys are rationals in lowest terms; the lookup is done once, when the
+    function is applied to its rational arguments (not once per sub-band), an unknown key gives a poison value *)
 Definition poison : Z := 7777777.
-Definition F_of_table (tab : list (Q * Q * list Z)) : Q -> Q -> arr := fun delta tsamp b =>
-  match find (fun e => Qeq_bool (fst (fst e)) delta && Qeq_bool (snd (fst e)) tsamp) tab with
-  | Some e => if (0 <=? b) && (b <? Z.of_nat (length (snd e))) then of_list (snd e) b else poison
-  | None => poison
+Definition Qkey_eqb (a b : Q) : bool := Z.eqb (Qnum a) (Qnum b) && Pos.eqb (Qden a) (Qden b).
+Definition vec_of (l : list Z) : arr :=
+  let n := Z.of_nat (length l) in fun b => if (0 <=? b) && (b <? n) then of_list l b else poison.
+Definition F_of_table (tab : list (Q * Q * list Z)) : Q -> Q -> arr := fun delta tsamp =>
+  let kd := Qred delta in
+  let kt := Qred tsamp in
+  match find (fun e => Qkey_eqb (fst (fst e)) kd && Qkey_eqb (snd (fst e)) kt) tab with
+  | Some e => vec_of (snd e)
+  | None => fun _ => poison
   end.
-Definition T_of_table (tab : list (Q * list Z)) : Q -> arr := fun dbins i =>
-  match find (fun e => Qeq_bool (fst e) dbins) tab with
-  | Some e => if (0 <=? i) && (i <? Z.of_nat (length (snd e))) then of_list (snd e) i else poison
-  | None => poison
+Definition T_of_table (tab : list (Q * list Z)) : Q -> arr := fun dbins =>
+  let k := Qred dbins in
+  match find (fun e => Qkey_eqb (fst e) k) tab with
+  | Some e => vec_of (snd e)
+  | None => fun _ => poison
   end.
 
 (** artificial delay functions and candidate histories used to refute every unsound choice of references *)
@@ -189,3 +196,49 @@ Definition refutes (R : refs) (c : Z * list op) : bool :=
   | Some s => negb (cube_eqb (data s) (expected 8 1%Q F_art T_art (cube_art nb) 1%Q 1%Q (final_dm ops 1%Q) (final_period ops 1%Q)))
   end.
 Definition has_witness (R : refs) : bool := existsb (refutes R) candidates.
+
+(** * A real case of the pinned tree (witnesses)
+    Header nchans=32, foff=-4 MHz, fch1=400 MHz, tobs=100 s; cube of 2 sub-integrations x 2 sub-bands x 8 bins folded
+    with DM 10 and period 0.5 s.  The tables hold what params.compute_dmdelays(freqs, delta_dm, tsamp, fch1) and
+    round(arange(2) / (2 / dbins)) return for the listed arguments; the harness re-derives them from the
+    implementation on every run (props/c17.py, "witness tables"). *)
+Definition w_F_tab : list (Q * Q * list Z) := [ (10%Q, (1#16)%Q, [0; 2]); ((-10)%Q, (1#16)%Q, [0; -2]) ].
+Definition w_T_tab : list (Q * list Z) := [ ((25#2)%Q, [0; 6]) ].
+Definition w_dm0 : Q := 10%Q.
+Definition w_p0 : Q := (1#2)%Q.
+Definition w_p1 : Q := (129#256)%Q.   (* 0.50390625 *)
+Definition w_run (R : refs) (nb : Z) (ops : list op) : option fstate :=
+  run R 2 nb 8 100%Q (F_of_table w_F_tab) (T_of_table w_T_tab) ops (init (cube_art nb) w_dm0 w_p0).
+Definition w_expected (nb : Z) (d p : Q) : cube :=
+  expected 8 100%Q (F_of_table w_F_tab) (T_of_table w_T_tab) (cube_art nb) w_dm0 w_p0 d p.
+
+(** * correspondence check of one case (used by the generated Corr/c17_*.v files)
+    case = (history, what the implementation ended with: None = an exception, or
+    (cube flattened, reported dm, reported period, _fph_shifts, _tph_shifts), index into [specs] of the oracle's
+    expected cube flattened).
+    Result: (model agrees with the implementation, Gallina [expected] agrees with the Python oracle). *)
+Definition flat (c : cube) : list Z := concat (concat c).
+Definition corr_case := (list op * option (list Z * Q * Q * list Z * list Z) * Z)%type.
+Definition corr_ok (R : refs) (ni nb nbins : Z) (tobs : Q) (Ftab : list (Q * Q * list Z)) (Ttab : list (Q * list Z))
+    (c0 : cube) (dm0 p0 : Q) (specs : list (list Z)) (c : corr_case) : bool * bool :=
+  let '(ops, out, ispec) := c in
+  let spec := nth (Z.to_nat ispec) specs [poison] in
+  let Fm := F_of_table Ftab in
+  let Tm := T_of_table Ttab in
+  (match run R ni nb nbins tobs Fm Tm ops (init c0 dm0 p0), out with
+   | None, None => true
+   | Some s, Some (d, dmv, pv, f, t) =>
+       list_eqb (flat (data s)) d && Qeq_bool (dm s) dmv && Qeq_bool (period s) pv &&
+       list_eqb (to_list nb (fph s)) f && list_eqb (to_list ni (tph s)) t
+   | _, _ => false
+   end,
+   list_eqb (flat (expected nbins tobs Fm Tm c0 dm0 p0 (final_dm ops dm0) (final_period ops p0))) spec).
+Definition corr_bad (R : refs) ni nb nbins tobs Ftab Ttab c0 dm0 p0 specs (cases : list corr_case) : list Z * list Z :=
+  let r := map (corr_ok R ni nb nbins tobs Ftab Ttab c0 dm0 p0 specs) cases in
+  let idx := map Z.of_nat (seq 0 (length cases)) in
+  (map fst (filter (fun p => negb (fst (snd p))) (combine idx r)),
+   map fst (filter (fun p => negb (snd (snd p))) (combine idx r))).
+(** the witness tables above against tables computed from the implementation *)
+Definition w_tables_ok (Ftab : list (Q * Q * list Z)) (Ttab : list (Q * list Z)) : bool :=
+  forallb (fun e => list_eqb (to_list 2 (F_of_table Ftab (fst (fst e)) (snd (fst e)))) (snd e)) w_F_tab &&
+  forallb (fun e => list_eqb (to_list 2 (T_of_table Ttab (fst e))) (snd e)) w_T_tab.
